@@ -564,6 +564,8 @@ def oracle_wellformed(pi, opts, exp):
     bad = []
     if 'raw' in pi:
         return [('wellformed:unparsable-output', pi['raw'][:200])]
+    if pi['outcome'] in ('error', 'invalid') and any(e[0] == 'intwrap' for e in exp['applied']):
+        return []     # an out-of-range integer literal was rejected by an exception: acceptable
     if pi['outcome'] != 'ok':
         return [('wellformed:%s' % pi['outcome'].replace(':', '-'), 'well-formed options text did not parse normally: outcome %s' % pi['outcome'])]
     vals, logs, errs, nonerr, wraps = expected_final(opts, exp)
@@ -666,10 +668,6 @@ def build(ck):
     objs = ck.libmp_objects(flags=tuple(FLAGS))
     h = ck.objects([os.path.join(VERIF, 'harness', 'h_options.cc')], flags=FLAGS, tag='h')
     return ck.link('h_options', h + objs, flags=['-fsanitize=address,undefined'])
-
-
-def table_ops_for(all_lines, tid):
-    return [l for l in all_lines if l.startswith('T %s' % tid + '') and l.split(' ')[1] == tid or (l.startswith('O ') and l.split(' ')[1] == tid)]
 
 
 def run(ck):
@@ -781,8 +779,11 @@ def run(ck):
             ck.sample(op[:300] + '  =>  ' + il[k][:300])
 
     # ---- verdicts
+    def table_lines(tid):
+        return [l for l in lines if l[:2] in ('T ', 'O ') and l.split(' ')[1] == tid]
+
     def replay_obj(op, tid, extra=None):
-        tl = tables[tid][0] if tid in tables else [l for l in COUNTEREXAMPLE_OPS if not l.startswith('C ')]
+        tl = table_lines(tid)
         o = {'ops': tl + [op], 'how': 'write "ops" one per line to a file F; build the harness as checks/c11.py:build() does; run `h_options F`; '
              'compare with `lean/.lake/build/bin/drv_c11 < F`; or `./check C11 --replay <this file>`'}
         if extra:
@@ -793,8 +794,7 @@ def run(ck):
     if overreads:
         op, m = overreads[0]
         tid = op.split(' ')[2]
-        tl = tables[tid][0] if tid in tables else [l for l in COUNTEREXAMPLE_OPS if not l.startswith('C ')]
-        rep, frames = symbolized_report(exe, tl + [op], BUILD)
+        rep, frames = symbolized_report(exe, table_lines(tid) + [op], BUILD)
         where = 'SkipToMatchingQuote' if any('SkipToMatchingQuote' in f for f in frames) else (frames[0] if frames else 'unknown')
         sig = 'unterminated-quote:over-read:%s' % where
         ck.add_violation(sig, 'heap-buffer-overflow READ beyond the terminating NUL of an option string (%d cases in this run; stack: %s)' % (len(overreads), ' <- '.join(frames[:4])),
@@ -803,11 +803,12 @@ def run(ck):
         tid = op.split(' ')[2]
         ck.add_violation('memory-or-crash:%s' % out.split(' ')[-1], 'implementation died on option text: %s' % out, replay_obj(op, tid), found_input=True)
     # (b) oracle
+    oracle_ops = set()
     for sig, lst in oracle_bad.items():
         op, msg, tid = lst[0]
-        ck.add_violation(sig, '%s (%d such cases in this run)' % (msg, len(lst)), replay_obj(op, tid, {'more': [l[1] for l in lst[1:4]]}), found_input=True)
+        if ck.add_violation(sig, '%s (%d such cases in this run)' % (msg, len(lst)), replay_obj(op, tid, {'more': [l[1] for l in lst[1:4]]}), found_input=True):
+            oracle_ops |= {l[0] for l in lst}     # not a known finding
     # (c) correspondence
-    oracle_ops = {l[0] for lst in oracle_bad.values() for l in lst}
     for op, a, b in corr_bad[:3]:
         tid = op.split(' ')[2] if op.startswith('C ') else None
         found = op in oracle_ops
